@@ -166,6 +166,7 @@ SEEDS = {
     "C20h-unsigned-values-above-int-max-refused": ("C20", "a legal value of 2^31 or more for an unsigned 32-bit option (--outstep 4294967295): the validator reads it through a signed 32-bit conversion and refuses it as invalid", ["C13"]),
     "C11h-nonregular-start-file-means-none": ("C11", "-i naming something that is not an existing regular file (a mistyped name, a directory): the '/dev/null means none' test was generalised to 'not a regular file', the run silently starts from the built-in Gaussian", ["C20"]),
     "C12h-loop-length-rounded-to-output-cadence": ("C12", "an output cadence that does not divide the step count: the loop runs on to the next multiple of outstep, the number of simulated steps and the final state depend on -n", ["C10", "C14"]),
+    "C12i-renormalise-before-ps-append-from-file": ("C12", "started from a results file with RenormalizeCharge >= 0: the grid is renormalised right before every in-loop phase-space record, so the trajectory depends on SavePhaseSpace / the output cadence", ["C11", "C14"]),
     "C14h-projection-update-skipped-on-abort": ("C14", "a run without any impedance (no wake map) interrupted inside a step: the projection update at the end of the step is skipped, the final record's profile, population and moments belong to the previous step", []),
     "C15h-upper-clamp-before-step": ("C15", "the stochastic tracker with a particle within a few noise widths of the last energy row (narrow energy range, particle clamped to the top row): the upper bound is applied before the damping/noise step is subtracted, the particle ends above row n-1", ["C17"]),
     "C17h-txt-particles-sized-by-newlines": ("C17", "a text start distribution with more coordinate pairs than newline characters (last line unterminated, several pairs on one line): pairs are stored into a vector sized by the newline count", []),
@@ -187,6 +188,8 @@ SEEDS = {
     "C20i-tracking-in-config-has-no-target": ("C20", "the option tracking given in a config file and not on the command line: the config-file twin of the option lost its store-to pointer, the value never reaches the member (the saved .cfg still shows it)", ["C13"]),
     "C14i-ps-axis-keeps-time-stamps-unique": ("C14", "an interrupt before the first step (set-up, points S0..S14) with the default SavePhaseSpace 0: the phase-space time axis only takes a stamp later than the last one, the final record repeats t=0 - /PhaseSpace/data has 2 records, its axis 1 (also an uninterrupted -T 0 run)", ["C10"]),
     "C17i-start-file-read-with-stored-type": ("C17", "an .h5 start file whose /PhaseSpace/data holds 64-bit floats (h5py default, a double-precision build): the record is read with the file's datatype as memory type, 8 bytes per cell into a 4-byte-per-cell buffer", ["C11"]),
+    "C11i-output-probe-empties-in-place-start": ("C11", "the start file and the results file are the same file (-i run.h5 -o run.h5, continuing in place): an early 'can the old results file be replaced' probe opens an ofstream on it, the start file is empty by the time it is read (same circumstance as C12g, another site)", ["C12"]),
+    "C18i-unchanged-profile-shortcut-first-bunch-only": ("C18", "two or more bunches, a step in which bunch 0 stays bit-identical while another bunch changes, wakePotential() before and after on one object: an 'unchanged profile' shortcut compares the first bunch only and returns the stored wake of the earlier train", ["C06", "C08"]),
     "C10-": ("C10", "", []),
     "C17-": ("C17", "", []),
 }
